@@ -5,6 +5,7 @@ from corr.corrlib import CorrSim, Q, tok
 
 ID = 'C02'
 TARGETS = ['SmppVerif.Props.C02']
+THOROUGH_ROUNDS = 6
 RULE = ('histories: plain and segmented (2..5) submits accepted under SMSC message ids, then receipts in any order '
         '(relative to each other and to the remaining submit responses) with error codes 0 / >0, id in the text or in '
         'receipted_message_id, duplicate and unknown ids, ids in mixed letter case and ids of different messages differing in '
